@@ -32,8 +32,10 @@ const prelude = `(set-option :produce-models true)
   (and (bvsle #x0000000000000000 (s_len x)) (bvsle (s_len x) (s_cap x))
        (bvsle #x0000000000000000 (s_off x)) (bvsle (s_off x) #x3fffffffffffffff)
        (bvsle (s_cap x) #x3fffffffffffffff)
+       (bvsle (bvadd (s_off x) (s_cap x)) #x3fffffffffffffff)
        (=> (= (s_arr x) NullLoc) (and (= (s_cap x) #x0000000000000000) (= (s_off x) #x0000000000000000)))
-       (> (base (s_arr x)) (- 1))))
+       (=> (= (base (s_arr x)) 0) (= (s_arr x) NullLoc))))
+(define-fun okptr ((p Loc)) Bool (=> (= (base p) 0) (= p NullLoc)))
 (define-fun wfstr ((x Str)) Bool (and (bvsle #x0000000000000000 (str_len x)) (bvsle (str_len x) #x3fffffffffffffff)))
 (define-fun inrange ((l Loc) (s Slice) (lo (_ BitVec 64)) (hi (_ BitVec 64))) Bool
   (and (= (base l) (base (s_arr s))) ((_ is PE) (path l)) (= (pe_p (path l)) (path (s_arr s)))
